@@ -187,6 +187,21 @@ def run(prog, chk):
                 ok = True
     chk.ob("R2.declared-algorithm-enabled", "_generate_key_from_request", ok, g.loc,
            "key object built only when the declared algorithm is in preferred_pubkeys (disabled algorithms filtered)")
+    # ... and no key leaves the function any other way: every return of something other than None passes the same test
+    # (a key remembered from an earlier request was vetted under the algorithm *that* request declared)
+    rets = fg.nodes(lambda n: n.kind == "return" and n.ast.value is not None and not (isinstance(n.ast.value, ast.Constant) and n.ast.value.value is None))
+    okr = bool(rets)
+    for r in rets:
+        good = False
+        for c in conds:
+            cp = M.compare_parts(c.ast)
+            if fg.expand_text(cp[2], c, depth=2) == ["self.transport.preferred_pubkeys"]:
+                okarm = "F" if cp[1] is ast.NotIn else "T"
+                if fg.dominated([r], guard_edge=lambda s, lab, d, c=c, okarm=okarm: s == c.id and lab == okarm):
+                    good = True
+        okr = okr and good
+    chk.ob("R2.every-returned-key-vetted", "_generate_key_from_request", okr, g.loc,
+           "%d return(s) of a key, each behind the enabled-algorithm test" % len(rets))
     # host key type is a product of the negotiation (C05-R3): written only by _parse_kex_init / __init__
     from ..core.flow import attr_writes
     wr = []
